@@ -282,9 +282,9 @@ class DirectCollocation(SamplingMethod):
                 if value.is_column() and var.is_scalar(): value = value.T
                 if is_states:
                     if var.numel()*(self.N)==value.numel() or var.numel()*(self.N+1)==value.numel():
-                        value_integrator = kron(DM.ones(1,self.M),value[:,:self.N])
-                        if var.numel()*(self.N+1)==value.numel(): value_integrator = horzcat(value_integrator.value[:,-1])
-                        value_integrator_root = kron(DM.ones(1,self.M*self.degree),value[:,:self.N])
+                        # One column per control interval (or node): repeat it for the points of that interval
+                        value_integrator = horzcat(ca.kron(value[:,:self.N],DM.ones(1,self.M)),value[:,-1])
+                        value_integrator_root = ca.kron(value[:,:self.N],DM.ones(1,self.M*self.degree))
                     else:
                         value_integrator = repmat(value,1,self.N*self.M+1)
                         value_integrator_root = repmat(value,1,self.N*self.M*self.degree)
